@@ -411,7 +411,7 @@ fn check_pair(ctx: &mut Ctx, xot: &mut Xot, x: (&ANode, Node), y: (&ANode, Node)
     }
     // shallow_equal_ignore_attributes with all kinds of ignore lists
     if ax.kind == AKind::Elem && ay.kind == AKind::Elem {
-        let mode = rng.below(6);
+        let mode = rng.below(9);
         let mut names: Vec<(QName, xot::NameId)> = Vec::new();
         let present: Vec<&(QName, xot::NameId)> = ignore_pool.iter().filter(|(q, _)| ax.attrs.iter().chain(ay.attrs.iter()).any(|(n, _)| n == q)).collect();
         let absent: Vec<&(QName, xot::NameId)> = ignore_pool.iter().filter(|(q, _)| !ax.attrs.iter().chain(ay.attrs.iter()).any(|(n, _)| n == q)).collect();
@@ -442,7 +442,7 @@ fn check_pair(ctx: &mut Ctx, xot: &mut Xot, x: (&ANode, Node), y: (&ANode, Node)
                 }
                 "all-attributes"
             }
-            _ => {
+            5 => {
                 for p in present.iter().take(1) {
                     names.push((*p).clone());
                 }
@@ -451,6 +451,21 @@ fn check_pair(ctx: &mut Ctx, xot: &mut Xot, x: (&ANode, Node), y: (&ANode, Node)
                     names.push((*p).clone());
                 }
                 "mixed-repeated-absent"
+            }
+            _ => {
+                // a random multiset in random order: repeats need not be adjacent ([x, y, x])
+                let all: Vec<&(QName, xot::NameId)> = present.iter().chain(absent.iter().take(2)).copied().collect();
+                if !all.is_empty() {
+                    for _ in 0..rng.range(2, 7) {
+                        names.push(all[rng.below(all.len())].clone());
+                    }
+                }
+                let nonadjacent = (0..names.len()).any(|i| (i + 2..names.len()).any(|j| names[i].1 == names[j].1 && names[i + 1].1 != names[i].1));
+                if nonadjacent {
+                    "multiset-nonadjacent-repeat"
+                } else {
+                    "multiset"
+                }
             }
         };
         let ign: Vec<&QName> = names.iter().map(|(q, _)| q).collect();
@@ -485,7 +500,7 @@ impl Monitor for C13 {
         vec![Stream::new("base-mutants-independent", scaled(n, budget))]
     }
     fn rule(&self) -> String {
-        "per case: a base tree, 3 single-feature mutants (16 feature kinds incl. prefix-only, declaration-only, attribute-order-only, order+value), one independent tree and an exact copy, all in one Xot; all ordered pairs among them at the root and at corresponding / random inner nodes, attribute-node and namespace-node pairs, triples for transitivity; every equality API against definitions computed from the abstract trees; string_value of every node. Non-trivial = base tree with >= 3 nodes; distinct by structural hash of the base".into()
+        "per case: a base tree, 3 single-feature mutants (16 feature kinds incl. prefix-only, declaration-only, attribute-order-only, order+value), one independent tree and an exact copy, all in one Xot; all ordered pairs among them at the root and at corresponding / random inner nodes, pairs of nodes inside one tree (ancestor / descendant, siblings, identical), ignore lists that are random multisets in random order, attribute-node and namespace-node pairs, triples for transitivity; every equality API against definitions computed from the abstract trees; string_value of every node. Non-trivial = base tree with >= 3 nodes; distinct by structural hash of the base".into()
     }
     fn floors(&self, _tier: Tier) -> Vec<(&'static str, u64)> {
         vec![
@@ -493,6 +508,8 @@ impl Monitor for C13 {
             ("pairs.equal", 5_000),
             ("pairs.unequal", 5_000),
             ("shallow_equal_ignore.repeated", 200),
+            ("shallow_equal_ignore.multiset-nonadjacent-repeat", 200),
+            ("same_tree_pairs", 10_000),
             ("attribute_node_pairs", 1_000),
             ("string_value.checked", 10_000),
             ("transitivity.checked", 1_000),
@@ -567,6 +584,19 @@ impl Monitor for C13 {
                 let i = rng.below(pb.len());
                 let j = if rng.bool() { i.min(pk.len() - 1) } else { rng.below(pk.len()) };
                 if !check_pair(ctx, &mut xot, pb[i], pk[j], "inner-nodes", rng, &pool) {
+                    return;
+                }
+            }
+        }
+        // pairs inside ONE tree: ancestor / descendant, siblings, a node with itself
+        for k in [0usize, built.len() - 1] {
+            let mut pk = Vec::new();
+            pairs(&built[k].0.a, &built[k].0.h, &mut pk);
+            for t in 0..5 {
+                let i = if t == 0 { 0 } else { rng.below(pk.len()) };
+                let j = rng.below(pk.len());
+                ctx.count("same_tree_pairs");
+                if !check_pair(ctx, &mut xot, pk[i], pk[j], "same-tree", rng, &pool) {
                     return;
                 }
             }
